@@ -214,6 +214,12 @@ func (x *Exec) storeLoc(st *State, loc *Loc, nv *smt.Term) {
 		old := x.sel(h, loc.Ref, x.so.SortOf(loc.RootTyp))
 		st.heaps[key] = x.sto(h, loc.Ref, x.update(old, loc.Path, nv))
 	case loc.SliceR != nil:
+		if len(x.views) > 0 {
+			// an element store through a slice that may alias an array inside a struct
+			if _, isView := x.views[loc.SliceR.ID]; isView || !(x.freshSet[loc.SliceR.ID] || x.oldSet[loc.SliceR.ID]) {
+				panic(unsupported("element store through a slice while views of struct-embedded arrays are live"))
+			}
+		}
 		key := x.heapKeySlice(loc.RootTyp)
 		es := x.so.SortOf(loc.RootTyp)
 		h := x.getHeap(st, key)
